@@ -217,3 +217,14 @@ mod tests {
             .all(|((s1, l1), (s2, l2))| s1 == s2 && l1 == l2);
     }
 }
+
+/// verification hooks: read access to the stored pair distances
+#[cfg(robopoker_verif)]
+impl Metric {
+    pub fn verif_entries(&self) -> Vec<(Pair, Energy)> {
+        self.0.iter().map(|(p, d)| (*p, *d)).collect()
+    }
+    pub fn verif_raw(map: BTreeMap<Pair, Energy>) -> Self {
+        Self(map)
+    }
+}
